@@ -521,6 +521,10 @@ func (p *Parser) parseData() (names []string, sequences map[string]string, nchar
 						switch tok3 {
 						case IDENT:
 							sequence = sequence + lit3
+						case NEXUS, BEGIN, DATA, TAXA, TAXLABELS, TREES, TREE, DIMENSIONS, NTAX, NCHAR,
+							FORMAT, DATATYPE, MISSING, GAP, MATCHCHAR, MATRIX, END:
+							// residues that happen to spell a reserved word (e.g. the protein row "END")
+							sequence = sequence + lit3
 						case ENDOFLINE:
 							stopseq = true
 						default:
